@@ -524,7 +524,15 @@ class Translator:
     def components(self, v, env):
         """Tuple-valued value -> list of RF components (tuple aggregate, or inlined workspace call returning a tuple)."""
         if v[0] == "agg" and v[1] == "tuple":
-            return [self.tr(x, env) for _, x in v[3]]
+            out = []
+            for _, x in v[3]:
+                try:
+                    out.append(self.tr(x, env))
+                except Unsupported as e:
+                    if not getattr(self, "lenient", False):
+                        raise
+                    out.append(None)
+            return out
         if v[0] == "proj" and v[2] == ("f", 0) and v[1][0] == "binop" and v[1][1].endswith("WithOverflow"):
             return None
         if v[0] == "binop" and v[1].endswith("WithOverflow"):
